@@ -258,7 +258,7 @@ impl Prop for C10 {
         ]
     }
     fn run(&self, ctx: &Ctx) {
-        let cases = ctx.tier.pick(150_000u32, 5_000_000u32);
+        let cases = ctx.tier.pick(150_000u32, 4_000_000u32);
         ctx.run_bytes("datum", cases, 220, datum_outcome);
     }
     fn replay(&self, ctx: &Ctx, _kind: &str, payload: &Value) -> Outcome {
